@@ -133,13 +133,21 @@ type Outcome struct {
 
 // Run builds spec, decodes it through ledger.NewTransactionFromCbor and, if it
 // decodes, runs the era's full rule list at the given slot against the
-// world's state and parameters.
+// world's state and parameters. With EnableChecks the validation is repeated
+// (history independence) and a transaction rejected by validation is re-run in
+// its presentation variants (see Independence).
 func (w *World) Run(spec *TxSpec, slot uint64) Outcome {
 	return w.RunWith(spec, slot, w.State, w.PP())
 }
 
 // RunWith is Run with an explicit ledger state and protocol parameters.
 func (w *World) RunWith(spec *TxSpec, slot uint64, ls common.LedgerState, pp common.ProtocolParameters) Outcome {
+	o := w.runOnce(spec, slot, ls, pp)
+	w.presentationCheck(spec, slot, ls, pp, o)
+	return o
+}
+
+func (w *World) runOnce(spec *TxSpec, slot uint64, ls common.LedgerState, pp common.ProtocolParameters) Outcome {
 	b := spec.Build()
 	o := Outcome{Built: b}
 	o.Tx, o.DecodeErr = b.Decode()
